@@ -329,7 +329,8 @@ def r7_literal_conversion(ctx):
     bad = [c for c in calls_in(f.node) if call_name(c) in ("eval", "exec", "compile") or call_name(c).endswith(".eval")]
     ctx.check(not bad, f.qual + "#no-eval", "no eval/exec on user text" if not bad else f"user text is passed to {call_name(bad[0])}", where=f, node=bad[0] if bad else f.node)
     early = [r for r in returns_of(f) if r.value is not None and dotted(r.value) == v]
-    ok = any(knows(enclosing_tests(r), f"not isinstance({v}, str)") for r in early)
+    # EVERY path that hands the value back untouched must be the non-string path
+    ok = bool(early) and all(knows(enclosing_tests(r), f"not isinstance({v}, str)") for r in early)
     ctx.check(ok, f.qual + "#non-str", "non-strings are returned unchanged" if ok else "non-string values are not returned unchanged", where=f, node=early[0] if early else f.node)
     le = [c for c in calls_in(f.node) if call_name(c) in ("literal_eval", "ast.literal_eval") and c.args and dotted(c.args[0]) == v]
     rets = [r for r in returns_of(f) if r.value is not None and r not in early]
